@@ -215,11 +215,78 @@ const SHADOWS: [(&str, &str); 28] = [
     ("everything", "pub struct Option; pub struct Some; pub struct None; pub struct Result; pub struct Ok; pub struct Err; pub struct Vec; pub struct String; pub struct Box; pub struct Default; pub struct Error;"),
 ];
 
+/// Receivers that have inherent items named like the methods generated code calls, and generic
+/// receivers whose parameters are named like types generated code mentions.
+const HYGIENE_EXTRA: &str = r#"
+mod h_inherent {
+    macro_rules! own_items { ($($t:ident),*) => { $(impl $t {
+        pub fn from_meta() {} pub fn from_list() {} pub fn from_word() {} pub fn from_none() {} pub fn from_string() {} pub fn from_value() {}
+        pub fn from_expr() {} pub fn from_nested_meta() {} pub fn from_bool() {} pub fn from_char() {} pub fn default() {} pub fn from() {} pub fn into(&self) {}
+        pub fn clone(&self) {} pub fn from_derive_input() {} pub fn from_field() {} pub fn from_variant() {} pub fn from_type_param() {} pub fn from_attributes() {}
+        pub fn from_generics() {} pub fn from_generic_param() {} pub fn uses_type_params() {} pub fn uses_lifetimes() {} pub fn to_string(&self) {} pub fn len(&self) {}
+        pub fn push(&self) {} pub fn handle(&self) {} pub fn finish(&self) {} pub fn map(&self) {} pub fn and_then(&self) {} pub fn unwrap_or_default() {} pub fn identity() {}
+        pub const Ok: u8 = 0; pub const None: u8 = 0;
+    })* } }
+    #[derive(darling::FromMeta)]
+    pub struct Inner { #[darling(default)] pub p: u32 }
+    #[derive(darling::FromMeta)]
+    #[darling(default, from_word = rw)]
+    pub struct R { pub a: u32, #[darling(multiple)] pub c: ::std::vec::Vec<u32>, #[darling(flatten)] pub e: Inner, #[darling(skip)] pub s: u8 }
+    fn rw() -> ::darling::Result<R> { loop {} }
+    impl ::core::default::Default for R { fn default() -> Self { loop {} } }
+    impl ::core::default::Default for Inner { fn default() -> Self { loop {} } }
+    #[derive(darling::FromMeta)]
+    pub enum E { A, B(u32), C { x: u32 } }
+    #[derive(darling::FromMeta)]
+    pub struct NT(u32);
+    #[derive(darling::FromDeriveInput)]
+    #[darling(attributes(a), forward_attrs, supports(any), from_ident)]
+    pub struct DI { pub ident: ::syn::Ident, pub attrs: ::std::vec::Vec<::syn::Attribute>, pub data: ::darling::ast::Data<V, F>, pub k: u32 }
+    impl ::core::convert::From<::syn::Ident> for DI { fn from(i: ::syn::Ident) -> Self { loop {} } }
+    #[derive(darling::FromField)]
+    #[darling(attributes(a))]
+    pub struct F { pub ident: ::core::option::Option<::syn::Ident>, #[darling(default)] pub k: u32 }
+    #[derive(darling::FromVariant)]
+    #[darling(attributes(a), supports(unit, newtype))]
+    pub struct V { pub ident: ::syn::Ident, pub fields: ::darling::ast::Fields<F> }
+    #[derive(darling::FromTypeParam)]
+    #[darling(attributes(a))]
+    pub struct TP { pub ident: ::syn::Ident, #[darling(default)] pub k: u32 }
+    #[derive(darling::FromAttributes)]
+    #[darling(attributes(a))]
+    pub struct FA { #[darling(default)] pub k: u32 }
+    own_items!(Inner, R, E, NT, DI, F, V, TP, FA);
+}
+mod h_generic_names {
+    // parameters named like what generated code mentions
+    #[derive(darling::FromMeta)]
+    pub struct G1<Error, Meta, Item, Result, T> { pub a: Error, pub b: Meta, #[darling(multiple)] pub c: ::std::vec::Vec<Item>, #[darling(default)] pub d: ::core::option::Option<Result>, #[darling(skip)] pub e: ::core::marker::PhantomData<T> }
+    #[derive(darling::FromMeta)]
+    pub enum G2<Option, Vec, Self_> { A(Option), B { x: Vec }, #[darling(skip)] C(Self_) }
+    #[derive(darling::FromDeriveInput)]
+    #[darling(attributes(a))]
+    pub struct G3<'a, FromMeta, const N: usize, Default: ::core::default::Default = u8> { pub ident: ::syn::Ident, pub x: FromMeta, #[darling(skip)] pub y: ::core::marker::PhantomData<&'a [Default; N]> }
+    #[derive(darling::FromField)]
+    #[darling(attributes(a))]
+    pub struct G4<__T, __E> { pub a: __T, #[darling(default)] pub b: ::core::option::Option<__E> }
+    pub fn instantiate() {
+        fn m<X: ::darling::FromMeta>() {}
+        m::<G1<u8, u16, u32, u64, ()>>();
+        m::<G2<u8, u16, ::core::cell::Cell<u8>>>();
+        fn d<X: ::darling::FromDeriveInput>() {}
+        d::<G3<'static, u8, 3>>();
+        fn f<X: ::darling::FromField>() {}
+        f::<G4<u8, u16>>();
+    }
+}
+"#;
+
 fn hygiene_src() -> String {
     let mut s = String::from("#![allow(non_camel_case_types, dead_code, non_snake_case, non_upper_case_globals, unused)]\n");
     for (name, shadow) in SHADOWS {
         s.push_str(&format!("mod h_{name} {{\n    {shadow}\n{HYGIENE_RECEIVERS}}}\n"));
     }
+    s.push_str(HYGIENE_EXTRA);
     s.push_str("fn main() {}\n");
     s
 }
